@@ -141,7 +141,11 @@ func apply(tx *gorm.DB, c Call) *gorm.DB {
 	case "OnConflict":
 		return tx.Clauses(clause.OnConflict{DoNothing: true})
 	case "Table":
-		return tx.Table("h_rows")
+		return tx.Table("h_rows AS hr")
+	case "TableEmpty": // resets the table of the chain it is called on (and of nothing else)
+		return tx.Table("")
+	case "Having":
+		return tx.Having("count(*) > ?", n)
 	case "Model":
 		return tx.Model(&HRow{ID: n})
 	case "Attrs":
@@ -286,16 +290,20 @@ func isolated(real bool, path []Call, f string) (string, error) {
 }
 
 func hasModel(path []Call) bool {
-	ok := false
+	model, table := false, false
 	for _, c := range path {
 		switch c.M {
-		case "Model", "Table":
-			ok = true
+		case "Model":
+			model = true
+		case "Table":
+			table = true
+		case "TableEmpty":
+			table = false
 		case "SessionNewDB", "SessionNewDBCtx", "SessionNewDBSkipHooks", "SessionNewDBPrepare", "SessionFull":
-			ok = false
+			model, table = false, false
 		}
 	}
-	return ok
+	return model || table
 }
 
 // run executes a history; returns the event.
@@ -390,7 +398,14 @@ func replay(args []string) error {
 }
 
 var methods = []string{"Where", "WhereMap", "Or", "Not", "Select", "Omit", "Order", "Limit", "Offset", "Group", "Joins", "Distinct", "Unscoped",
-	"Scopes", "Returning", "Returning", "OrderByC", "Locking", "OnConflict", "Table", "Model", "Attrs", "Assign", "SelectRel", "SelectAssoc", "PreloadPets", "SelectField"}
+	"Scopes", "Returning", "Returning", "OrderByC", "Locking", "OnConflict", "Table", "Model", "Attrs", "Assign", "SelectRel", "SelectAssoc", "PreloadPets", "SelectField", "TableEmpty", "Having"}
+
+// methods that append to a slice held by the statement (capacity patterns)
+var capMethods = []string{"Where", "WhereMap", "Or", "Not", "Order", "Group", "Having", "Joins", "Scopes", "Returning", "OrderByC", "PreloadPets", "SelectAssoc"}
+
+// methods only exercised in DryRun
+var dryOnly = map[string]bool{"Joins": true, "Group": true, "Having": true, "Locking": true, "Returning": true, "Table": true, "TableEmpty": true, "Select": true,
+	"Distinct": true, "Omit": true, "SelectRel": true, "SelectAssoc": true, "SelectField": true}
 var hows = []string{"Session", "WithContext", "Debug", "SessionNewDB", "SessionCtx", "SessionNewDBCtx", "SessionSkipHooks", "SessionNewDBSkipHooks", "SessionNewDBPrepare", "SessionFull"}
 var finishersDry = []string{"Find", "First", "Take", "Count", "Pluck", "Update", "Delete", "Scan", "FirstOrInit", "Create", "DeleteRec", "CountOther"}
 var finishersReal = []string{"Find", "First", "Count", "Pluck", "Scan", "FirstOrInit"}
@@ -422,23 +437,26 @@ func random(args []string) error {
 				return focus
 			}
 			m := methods[r.Intn(len(methods))]
-			if real && (m == "Joins" || m == "Group" || m == "Locking" || m == "Returning" || m == "Table" || m == "Select" || m == "Distinct" || m == "Omit" || m == "SelectRel" || m == "SelectAssoc" || m == "SelectField") {
+			if real && dryOnly[m] {
 				return "Where"
 			}
 			return m
 		}
-		if real && (focus == "Joins" || focus == "Group" || focus == "Locking" || focus == "Returning" || focus == "Table" || focus == "Select" || focus == "Distinct" || focus == "Omit" || focus == "SelectRel" || focus == "SelectAssoc" || focus == "SelectField") {
+		if real && dryOnly[focus] {
 			focus = "Or"
 		}
-		if i%4 == 3 {
+		if i%2 == 1 {
 			// capacity pattern: the same appending method k times (separate calls leave spare capacity in
 			// the slice behind it), a new handle, then sibling chains that each append once more before
 			// any of them is finished
-			m := pick()
+			m := capMethods[r.Intn(len(capMethods))]
+			if real && dryOnly[m] {
+				m = []string{"Where", "Or", "Not", "Order", "Scopes"}[r.Intn(5)]
+			}
 			ops = append(ops, Op{Op: "derive", From: 1, To: next, M: m})
 			cur := next
 			next++
-			for k := r.Intn(5); k > 0; k-- {
+			for k := r.Intn(7); k > 0; k-- {
 				ops = append(ops, Op{Op: "extend", From: cur, To: next, M: m})
 				cur = next
 				next++
@@ -461,6 +479,31 @@ func random(args []string) error {
 				ops = append(ops, Op{Op: "finish", From: x, M: fl[r.Intn(len(fl))]})
 			}
 			ops = append(ops, Op{Op: "finish", From: h, M: fl[r.Intn(len(fl))]})
+			ln = 0
+		}
+		if i%5 == 2 && !real {
+			// receiver pattern: a handle that carries a table and conditions; chains that START with any
+			// method on the handle itself (finished or abandoned) must leave the handle as it was
+			ops = append(ops, Op{Op: "derive", From: 1, To: next, M: "Table"})
+			ops = append(ops, Op{Op: "extend", From: next, To: next + 1, M: pick()})
+			ops = append(ops, Op{Op: "session", From: next + 1, To: next + 2, M: hows[r.Intn(3)]})
+			h := next + 2
+			next += 3
+			for k := 2 + r.Intn(3); k > 0; k-- {
+				m := methods[r.Intn(len(methods))]
+				if r.Intn(3) == 0 {
+					m = "TableEmpty"
+				}
+				ops = append(ops, Op{Op: "derive", From: h, To: next, M: m})
+				if r.Intn(2) == 0 {
+					ops = append(ops, Op{Op: "finish", From: next, M: finishersDry[r.Intn(len(finishersDry))]})
+				}
+				next++
+				ops = append(ops, Op{Op: "finish", From: h, M: finishersDry[r.Intn(len(finishersDry))]})
+			}
+			ops = append(ops, Op{Op: "derive", From: h, To: next, M: "Where"})
+			ops = append(ops, Op{Op: "finish", From: next, M: "Find"})
+			next++
 			ln = 0
 		}
 		for k := 0; k < ln; k++ {
